@@ -50,4 +50,8 @@ def adel {α β} [BEq α] (k : α) : List (α × β) → List (α × β)
   | [] => []
   | (k', v') :: r => if k' == k then r else (k', v') :: adel k r
 
+/-- dict.update: every binding of `new` written into `old` -/
+def amerge {α β} [BEq α] (new old : List (α × β)) : List (α × β) :=
+  new.foldl (fun acc kv => aset kv.1 kv.2 acc) old
+
 end Ft
